@@ -5,6 +5,8 @@ package main
 import (
 	"bytes"
 	"encoding/json"
+
+	"sigs.k8s.io/controller-runtime/pkg/client"
 )
 
 func jsonUnmarshalStrict(b []byte, v any) error {
@@ -19,3 +21,5 @@ func mustJSON(v any) string {
 	}
 	return string(b)
 }
+
+func clientKey(name string) client.ObjectKey { return client.ObjectKey{Name: name} }
